@@ -1,7 +1,8 @@
 (* Executable model of boltons.ioutils SpooledBytesIO / SpooledStringIO /
    MultiFileReader AS WRITTEN (after the fix: commits 2ebe104 SpooledStringIO.len,
    58e1fc2 MultiFileReader.seek, 3166b79 __next__ at/past the end, 7904e8d
-   SpooledBytesIO.readlines(sizehint), b866c21 SpooledStringIO.rollover).  Definitions only.
+   SpooledBytesIO.readlines(sizehint), b866c21 SpooledStringIO.rollover, 9c350bf read(None),
+   bb0f4f6 SpooledBytesIO.readline(0), 3d28150 text readline/readlines at "\n" only).  Definitions only.
 
    What is modelled and trusted (not verified):
    * the backing object - io.BytesIO before rollover, tempfile.TemporaryFile
@@ -13,7 +14,7 @@
      Lib/codecs.py of CPython 3.12: read(size, chars), readline(), reset(),
      seek()), writes go straight to the stream; UTF-8 is [utf8_enc]/[utf8_dec]
      below (incremental decoding keeps an incomplete trailing sequence);
-   * since fix 5 of the second/third wave SpooledStringIO.readline no longer calls
+   * since the repair 3d28150 SpooledStringIO.readline no longer calls
      StreamReader.readline: the reader's linebuffer therefore stays None and
      only read(size, chars) is transcribed. *)
 From Boltons Require Import Lib.Prelude Spec.C18_Spec.
